@@ -179,7 +179,7 @@ def run(ctx):
     c12.codec_tie(ctx, ctx.seed + 350, 300 if ctx.quick else 8000)
     for i in range(3 if ctx.quick else 30):
         c12.big_last_line(ctx, r.fork(), prop="C03")
-    ctx.cov["rule"] = ("seeded pre-states; alternating (mutating command interrupted by SIGKILL before a random system call | its write cut short at a byte offset) and "
+    ctx.cov["rule"] = ("a killed compact/plan compared with the state before it (a rewrite publishes with one rename or not at all); tears right before each line end of the batch; seeded pre-states; alternating (mutating command interrupted by SIGKILL before a random system call | its write cut short at a byte offset) and "
                        "further commands, depth 3 (quick) / 5; after every fault: list/show succeed, earlier events intact, only the interrupted command's events may be "
                        "missing, the next mutation succeeds and is visible, reads succeed after it; distinct = (command, fault kind, depth)")
     ctx.assumptions += ["a killed write(2) leaves a prefix of its buffer", "flock released on death; rename atomic", "process death only (no power loss)"]
